@@ -11,7 +11,7 @@ import itertools
 
 BINDINGS = ["ctx", "pagearg", "bodyassign", "defarg", "outerlocal", "looptarget", "module", "imported", "nowhere"]
 READS = ["body", "topdef", "nesteddef", "anonblock", "namedblock", "callbody", "controlline", "tagattr", "filter",
-         "topdef-in-callbody", "topdef-in-block", "topdef-in-loop"]
+         "topdef-in-callbody", "topdef-in-block", "topdef-in-loop", "nsdef"]
 
 NS_TEMPLATE = '<%def name="zz(s=None)">imported</%def>'
 
@@ -42,7 +42,7 @@ def build(bind, read):
         pre.append("<%% zz = %s %%>" % lam("body"))
     local_to_site = None
     body = None
-    in_def_like = read in ("topdef", "nesteddef", "topdef-in-callbody", "topdef-in-block", "topdef-in-loop")
+    in_def_like = read in ("topdef", "nesteddef", "topdef-in-callbody", "topdef-in-block", "topdef-in-loop", "nsdef")
     if "defarg" in bind and not in_def_like:
         return None
     if "outerlocal" in bind and read != "nesteddef":
@@ -74,6 +74,10 @@ def build(bind, read):
         outer = "<%% zz = %s %%>" % lam("outer") if "outerlocal" in bind else ""
         head.append('<%%def name="outerd()">%s<%%def name="inner(%s)">%s%s%s</%%def>${inner()}</%%def>' % (outer, darg, loop_open, rd, loop_close))
         body = "${outerd()}"
+    elif read == "nsdef":
+        # a def written inside a <%namespace> tag, called through the namespace
+        head.append('<%%namespace name="inl"><%%def name="show(%s)">%s%s%s</%%def></%%namespace>' % (darg, loop_open, rd, loop_close))
+        body = "${inl.show()}"
     elif read == "anonblock":
         body = "<%block>" + loop_open + rd + loop_close + "</%block>"
     elif read == "namedblock":
@@ -106,6 +110,10 @@ def build(bind, read):
             order.append("body")
         if "pagearg" in bind:
             order.append("page-or-ctx")
+    if read == "nsdef" and ({"bodyassign", "pagearg", "imported"} & bind) and not (set(order) & {"loop", "darg", "module"}):
+        return text, None          # the statement does not say what a def inside a <%namespace> tag sees of the body's locals or of import=
+    if read == "nsdef":
+        order = [o for o in order if o not in ("body", "page-or-ctx", "imported")]
     if read in ("namedblock", "nesteddef") and ({"bodyassign", "pagearg"} & bind) and not (set(order) & {"loop", "darg", "outer", "module", "imported"}):
         return text, None          # the statement does not say what a named block / a def nested in another def sees of the body's locals
     if "ctx" in bind:
@@ -232,3 +240,42 @@ def reserved_grid():
             except Exception as e:
                 bad.append({"problem": "loop with enable_loop=False: %r" % e})
     return n, bad
+
+
+# constructs that mention a name in a binding position without binding it in the enclosing scope (Python's rules):
+# a later read of the name in the same body still resolves to the context
+NONBINDING = [
+    ("comprehension-in-block", "<% r = [zz for zz in [1]] %>"),
+    ("set-comprehension-in-block", "<% r = {zz for zz in [1]} %>"),
+    ("dict-comprehension-in-block", "<% r = {zz: 1 for zz in [1]} %>"),
+    ("generator-expression-in-block", "<% r = list(zz for zz in [1]) %>"),
+    ("comprehension-in-expression", "${[zz for zz in [1]][0]}"),
+    ("lambda-parameter", "<% f = lambda zz: zz %>"),
+    ("lambda-parameter-in-expression", "${(lambda zz: 2)(1)}"),
+    ("function-parameter", "<%\ndef g(zz):\n    return zz\n%>"),
+    ("function-local", "<%\ndef g():\n    zz = 1\n    return zz\n%>"),
+    ("comprehension-inside-function", "<%\ndef g():\n    return [zz for zz in [1]]\n%>"),
+]
+
+
+def run_nonbinding(args):
+    from mako.template import Template
+    kind, construct, site, strict = args
+    read = "${zz()}"
+    if site == "body":
+        src = construct + "\n" + read
+    elif site == "def":
+        src = '<%def name="d()">' + construct + "\n" + read + "</%def>${d()}"
+    else:
+        src = "<%block>" + construct + "\n" + read + "</%block>"
+    try:
+        out = Template(src, strict_undefined=strict).render_unicode(zz=lambda: "ctx")
+    except Exception as e:
+        out = "%s: %s" % (type(e).__name__, str(e)[:80])
+    if out.strip().endswith("ctx"):
+        return None
+    return {"kind": kind, "site": site, "strict_undefined": strict, "template": src, "expected": "...ctx (the name is not bound in this scope: the read goes to the context)", "got": out.strip()[-120:]}
+
+
+def nonbinding_cases():
+    return [(k, c, s, st) for k, c in NONBINDING for s in ("body", "def", "block") for st in (False, True)]
